@@ -2,7 +2,10 @@
    (/repo/notations/jschema/internal/checker/check_recusrion.go) against the specification
    "a type is legal iff it has a finite inhabitant".
    A type's schema is abstracted to what the checker looks at: literals, arrays and rule
-   nodes are leaves (an array may be empty, so its items are never required); an object
+   nodes are leaves (an array may be empty, so its items are not required - unless it has
+   minItems = m >= 1: since fix fb8368b its first m positions are required like the properties
+   of an object, and the check writes such an array as an object node with those positions
+   as required properties and the others as optional ones); an object
    requires its non-optional properties; a type shortcut / or-list [@a | @b] is satisfied
    by any one alternative.  No proofs in this file. *)
 From Coq Require Import List NArith Bool Arith.
@@ -76,6 +79,28 @@ Definition fuel_for (g : env) (t : tnode) : nat := S (size t + (S (length g)) * 
 
 Definition check_recursion (g : env) (root : tnode) : option bool := check (fuel_for g root) g [] root.
 
+(* fix 9a9fdc3: after the walk from the root, every named type is expanded once more as a root of its own,
+   with its own name on the path (CheckRecursion: the loop over the sorted names; the verdict does not depend
+   on the order, only which of several errors is reported does).  The first error ends the run. *)
+Fixpoint check_names (g : env) (ns : list tname) : option bool :=
+  match ns with
+  | [] => Some true
+  | n :: r =>
+    match lookup g n with
+    | None => check_names g r
+    | Some body =>
+      match check (fuel_for g body) g [n] body with
+      | Some true => check_names g r
+      | x => x
+      end
+    end
+  end.
+Definition check_all (g : env) (root : tnode) : option bool :=
+  match check_recursion g root with
+  | Some true => check_names g (map fst g)
+  | x => x
+  end.
+
 (* ---------- the specification: finite inhabitants (least fixpoint) ---------- *)
 Inductive Inhabited (g : env) : tnode -> Prop :=
 | InhLeaf : Inhabited g TLeaf
@@ -115,10 +140,14 @@ Fixpoint inh_iter (k : nat) (g : env) (known : list tname) : list tname :=
   end.
 Definition inhabited_b (g : env) (root : tnode) : bool :=
   inh_node g (inh_iter (S (length g)) g []) root.
+(* the root and every defined type have a finite inhabitant *)
+Definition inhabited_all_b (g : env) (root : tnode) : bool :=
+  let known := inh_iter (S (length g)) g [] in
+  (inh_node g known root && forallb (fun p => mem (fst p) known) g)%bool.
 
 (* ---------- wire ----------
    node:  L | O n (opt node)^n | R n name^n          line:  <root node> ; <name> <node> ; <name> <node> ...
-   output: <checker: ok|E104|FUEL> <inhabited_b: T|F> <closed: T|F> *)
+   output: <check_all: ok|E104|FUEL> <inhabited_all_b: T|F> <closed: T|F> *)
 From Coq Require Import Strings.Byte.
 From JS Require Import Common.Wire.
 
@@ -191,11 +220,11 @@ Definition recursion_model_line (line : bytes) : bytes :=
   | rootb :: entries =>
     match parse_t (S (length rootb)) (twords rootb), all_some (map parse_entry (filter (fun e => negb (Nat.eqb (length (twords e)) 0)) entries)) with
     | Some (root, []), Some g =>
-      (match check_recursion g root with
+      (match check_all g root with
        | Some true => [x6f; x6b]
        | Some false => [x45; x31; x30; x34]
        | None => [x46; x55; x45; x4c]
-       end) ++ [sp] ++ print_bool (inhabited_b g root) ++ [sp] ++ print_bool (closed g root)
+       end) ++ [sp] ++ print_bool (inhabited_all_b g root) ++ [sp] ++ print_bool (closed g root)
     | _, _ => [x42; x41; x44]
     end
   | [] => [x42; x41; x44]
